@@ -3,13 +3,17 @@
 package c09
 
 import (
+	"bytes"
 	"crypto/sha256"
 	"fmt"
 	"math/big"
+	"os"
+	"reflect"
 	"sort"
 	"strconv"
 	"strings"
 	"sync"
+	"unsafe"
 
 	"github.com/lianxiangcloud/linkchain/libs/common"
 	"github.com/lianxiangcloud/linkchain/libs/crypto"
@@ -26,24 +30,35 @@ type P struct{}
 // caseWithDump: whether the answer of the `case` op carries " | <dump>" (spec: `-> "ok"`, i.e. bare).
 const caseWithDump = false
 
+// kvGhostStorage: the flat kv backend keys storage by addrHash||keyhash without a root indirection, so the storage of a
+// deleted/overwritten account survives and a re-created account reads the OLD storage (monitor fresh_account_clean, class
+// kv-storage-ghost).  When false the generator avoids the situation in mode 3: del=0 for the whole case, `setstate` only on
+// the "storage addresses" 0,1,2 and never `suicide`/`create` on them.  When true mode 3 is unrestricted.
+const kvGhostStorage = false
+
 const (
 	nAddr = 6
 	nTok  = 4
 	nKey  = 4
 	nTx   = 3
+	nPre  = 3
 	site  = "state/statedb.go"
 )
 
 func (P) Rule() string {
 	return "cases: op sequences against real state.StateDB values over a fixed universe (6 addresses, native balance + 3 tokens, 4 storage keys, 3 tx ids), " +
-		"backend mode 0 (trie) 50% / 1 (kv wrapper over trie) 25% / 2 (plain kv) 25%, 2..6 addresses, 1..3 tokens, 10..60 ops; kinds: " +
+		"3 preimage keys; backend mode 0 (trie) / 1 (kv wrapper over trie, cache 128) / 2 (plain kv) / 3 (plain kv with the undo log kvState.wal in a temp dir), " +
+		"weights 40/20/15 for the kinds below and 1|3 50/50 for `blocks`; 2..6 addresses, 1..3 tokens, 10..60 ops; kinds: " +
+		"blocks 25% (modes 1,3; handle 0; 2..5(+2) blocks of 3..12 ops on 2..4 addresses, each ended by [root,] commit and then reopen or reset to that commit; rollback (sometimes twice, sometimes at height 0) " +
+		"at 50% of the block boundaries, re-creation of accounts suicided before the previous commit), and of the rest: " +
 		"journal 35% (handle 0, nested snapshots, revert to a random OPEN id, root/commit sprinkled in modes 0,1), " +
 		"copies 35% (up to 4 live handles, copy-of-copy, copies taken while the source holds dirty token accounts, later token ops on the same (addr,token) on either side), " +
 		"twin 20% (mode 0: journal case on handle 0, then the effective op list - reverted ops and snap/revert removed - re-issued on a fresh handle 9, then root on both), " +
 		"malformed 10% (invalid/invalidated revert ids, subrefund above the counter, unknown handles, copy onto a live handle, optionally negative balances); " +
-		"mutator mix addbal 10 subbal 5 setbal 4 addtok 14 subtok 6 settok 6 setnonce 6 setcode 5 setstate 10 create 4 suicide 4 addlog 4 addrefund 3 subrefund 1 prepare 2 snap 10 revert 6; " +
+		"reset (to an earlier commit of the same database / the empty root / 5% a bad root) 2% of ops in modes 0,1; after reset/reopen/rollback occasionally a revert to an id issued before it (expected panic, tag malformed); " +
+		"mutator mix setcredits 3 addpreimage 3 addbal 10 subbal 5 setbal 4 addtok 14 subtok 6 settok 6 setnonce 6 setcode 5 setstate 10 create 4 suicide 4 addlog 4 addrefund 3 subrefund 1 prepare 2 snap 10 revert 6; " +
 		"amounts 0 / 1..9 / 100..999 / 2^64+small; every answer carries the getter dump of ALL live handles; " +
-		"non-trivial = the case contains a successful revert after a mutation, or a copy followed by a mutation; distinct = distinct op sequence"
+		"non-trivial = the case contains a successful revert after a mutation, or a copy followed by a mutation, or (blocks) a rollback at a height > 0 that can roll back; distinct = distinct op sequence"
 }
 
 // ---- universe ------------------------------------------------------------------------------
@@ -53,6 +68,8 @@ var (
 	uTok  [nTok]common.Address
 	uKey  [nKey]common.Hash
 	uTx   [nTx]common.Hash
+	uPre  [nPre]common.Hash
+	uBad  common.Hash
 	quiet sync.Once
 )
 
@@ -75,39 +92,180 @@ func init() {
 		h := sha256.Sum256([]byte("c09-tx-" + strconv.Itoa(x)))
 		uTx[x] = common.BytesToHash(h[:])
 	}
+	for p := 0; p < nPre; p++ {
+		h := sha256.Sum256([]byte("c09-pre-" + strconv.Itoa(p)))
+		uPre[p] = common.BytesToHash(h[:])
+	}
+	hb := sha256.Sum256([]byte("c09-bad-root"))
+	uBad = common.BytesToHash(hb[:])
 }
 
 // ---- executor ------------------------------------------------------------------------------
+
+// dirDB gives a MemDB a directory (mode 3: the undo log kvState.wal lives in db.Dir()).
+type dirDB struct {
+	*dbm.MemDB
+	dir string
+}
+
+func (d dirDB) Dir() string { return d.dir }
+
+var _ dbm.DB = dirDB{}
+
+// dbInfo is the per-database bookkeeping shared by a handle and its copies.
+type dbInfo struct {
+	raw    dbm.DB
+	height uint64 // block store height
+	rootAt map[uint64]common.Hash
+	// mode 3: byte-level ground truth for the undo log: digest of the underlying MemDB right after the commit that made height k
+	digestAt map[uint64][32]byte
+}
+
+var codeBlobKeys = func() map[string]bool {
+	m := map[string]bool{}
+	for _, c := range codes {
+		m[string(crypto.Keccak256(hx.UnHex(c)))] = true
+	}
+	return m
+}()
+
+// dbDigest: sha256 over the sorted (key,value) pairs of the MemDB, excluding the stored kv height ("kvh") and the code
+// blobs (written with InsertBlob outside the undo log).
+func dbDigest(raw dbm.DB) [32]byte {
+	var m *dbm.MemDB
+	switch d := raw.(type) {
+	case dirDB:
+		m = d.MemDB
+	case *dbm.MemDB:
+		m = d
+	}
+	var keys []string
+	if m != nil {
+		for _, k := range m.Keys() {
+			if string(k) == "kvh" || codeBlobKeys[string(k)] {
+				continue
+			}
+			keys = append(keys, string(k))
+		}
+	}
+	sort.Strings(keys)
+	h := sha256.New()
+	var n [8]byte
+	put := func(b []byte) {
+		for i := 0; i < 8; i++ {
+			n[i] = byte(len(b) >> (8 * uint(i)))
+		}
+		h.Write(n[:])
+		h.Write(b)
+	}
+	for _, k := range keys {
+		put([]byte(k))
+		put(m.Get([]byte(k)))
+	}
+	var out [32]byte
+	copy(out[:], h.Sum(nil))
+	return out
+}
 
 type exec struct {
 	started bool
 	mode    int
 	h       map[int]*state.StateDB
+	dbs     map[int]*dbInfo
 	classes []common.Hash
-	height  uint64
+	commits []common.Hash // roots of the successful commit ops of the case, in order of execution
+}
+
+// Temp directories and Database objects of the running case (package level: hx makes one executor per
+// case); removed/closed at the next `case` op or NewExec.
+var (
+	tmpDirs []string
+	openDBs []state.Database
+)
+
+func cleanupTemp() {
+	for _, db := range openDBs {
+		closeWAL(db)
+	}
+	openDBs = nil
+	for _, d := range tmpDirs {
+		os.RemoveAll(d)
+	}
+	tmpDirs = nil
+}
+
+// closeWAL closes the (unexported) wal file of a kv Database, if it has one.
+func closeWAL(db state.Database) {
+	defer func() { recover() }()
+	v := reflect.ValueOf(db)
+	if v.Kind() != reflect.Ptr || v.Elem().Kind() != reflect.Struct {
+		return
+	}
+	f := v.Elem().FieldByName("wal")
+	if !f.IsValid() || !f.CanAddr() {
+		return
+	}
+	if fp, ok := reflect.NewAt(f.Type(), unsafe.Pointer(f.UnsafeAddr())).Elem().Interface().(*os.File); ok && fp != nil {
+		fp.Close()
+	}
 }
 
 func (P) NewExec() hx.Executor {
 	quiet.Do(func() { log.Root().SetHandler(log.DiscardHandler()) })
+	cleanupTemp()
 	return &exec{}
 }
 
-func (e *exec) newState() *state.StateDB {
-	mdb := dbm.NewMemDB()
+func (e *exec) newRaw() *dbInfo {
+	var raw dbm.DB = dbm.NewMemDB()
+	if e.mode == 3 {
+		dir, err := os.MkdirTemp(".", "c09kv")
+		if err != nil {
+			panic("harness: MkdirTemp: " + err.Error())
+		}
+		tmpDirs = append(tmpDirs, dir)
+		raw = dirDB{dbm.NewMemDB(), dir}
+	}
+	info := &dbInfo{raw: raw, rootAt: map[uint64]common.Hash{}, digestAt: map[uint64][32]byte{}}
+	if e.mode == 3 {
+		info.digestAt[0] = dbDigest(raw)
+	}
+	return info
+}
+
+// openDB builds a new Database object of the case's mode over the underlying db at its current height.
+func (e *exec) openDB(info *dbInfo) state.Database {
 	var db state.Database
 	switch e.mode {
 	case 0:
-		db = state.NewDatabase(mdb)
+		db = state.NewDatabase(info.raw)
 	case 1:
-		db = state.NewKeyValueDBWithCache(mdb, 0, true, 0)
+		db = state.NewKeyValueDBWithCache(info.raw, 128, true, info.height)
+	case 2:
+		db = state.NewKeyValueDBWithCache(info.raw, 0, false, info.height)
 	default:
-		db = state.NewKeyValueDBWithCache(mdb, 0, false, 0)
+		db = state.NewKeyValueDBWithCache(info.raw, 128, false, info.height)
 	}
-	s, err := state.New(common.EmptyHash, db)
+	openDBs = append(openDBs, db)
+	return db
+}
+
+// openState: a new StateDB over a new Database object at the current height of the underlying db.
+func (e *exec) openState(info *dbInfo) (*state.StateDB, error) {
+	root := common.EmptyHash
+	if e.mode <= 1 {
+		root = info.rootAt[info.height]
+	}
+	return state.New(root, e.openDB(info))
+}
+
+func (e *exec) newState() (*state.StateDB, *dbInfo) {
+	info := e.newRaw()
+	s, err := e.openState(info)
 	if err != nil {
 		panic("harness: state.New: " + err.Error())
 	}
-	return s
+	return s, info
 }
 
 func argInt(toks []string, key string, lo, hi int) (int, bool) {
@@ -151,6 +309,10 @@ func argHex(toks []string, key string) ([]byte, bool) {
 
 const maxInt = int(^uint(0) >> 1)
 
+// flushMaxMode: after a successful Commit the harness calls TrieDB().Commit(root,false) in modes <= this
+// (mode 0 and the trie-backed kv wrapper of mode 1, as app.go does; without it a `reopen` cannot find the root).
+const flushMaxMode = 1
+
 func (e *exec) class(r common.Hash) string {
 	if e.mode != 0 {
 		return "class=na"
@@ -170,18 +332,20 @@ func (e *exec) Exec(op string) string {
 		return "bad-op"
 	}
 	if toks[0] == "case" {
-		m, ok := argInt(toks, "mode", 0, 2)
+		m, ok := argInt(toks, "mode", 0, 3)
 		if !ok {
 			return "bad-op"
 		}
+		cleanupTemp()
 		e.started = true
 		e.mode = m
 		e.classes = nil
-		e.height = 0
+		e.commits = nil
 		e.h = map[int]*state.StateDB{}
-		e.h[0] = e.newState()
+		e.dbs = map[int]*dbInfo{}
+		e.h[0], e.dbs[0] = e.newState()
 		if caseWithDump {
-			return "ok | " + e.dumpAll()
+			return "ok | " + e.dumpAll(nil)
 		}
 		return "ok"
 	}
@@ -192,7 +356,7 @@ func (e *exec) Exec(op string) string {
 	if res == "bad-op" {
 		return res
 	}
-	return res + " | " + e.dumpAll()
+	return res + " | " + e.dumpAll(toks)
 }
 
 // step performs one op (not `case`) and returns <res> or "bad-op".  All arguments are validated before
@@ -208,13 +372,14 @@ func (e *exec) step(toks []string) string {
 		if _, used := e.h[hid]; used {
 			return bad
 		}
-		e.h[hid] = e.newState()
+		e.h[hid], e.dbs[hid] = e.newState()
 		return "ok"
 	}
 	s, live := e.h[hid]
 	if !live {
 		return bad
 	}
+	info := e.dbs[hid]
 	needA := func() (common.Address, bool) {
 		a, ok := argInt(toks, "a", 0, nAddr-1)
 		if !ok {
@@ -355,6 +520,7 @@ func (e *exec) step(toks []string) string {
 			return bad
 		}
 		e.h[to] = s.Copy()
+		e.dbs[to] = info
 		return "ok"
 	case "root":
 		del, ok1 := argInt(toks, "del", 0, 1)
@@ -368,22 +534,120 @@ func (e *exec) step(toks []string) string {
 		if !ok1 {
 			return bad
 		}
-		e.height++
-		r, err := s.Commit(del == 1, e.height)
+		r, err := s.Commit(del == 1, info.height+1)
 		if err != nil {
 			return "err"
 		}
-		if e.mode == 0 {
+		info.height++
+		info.rootAt[info.height] = r
+		e.commits = append(e.commits, r)
+		if e.mode == 3 {
+			info.digestAt[info.height] = dbDigest(info.raw)
+		}
+		if e.mode <= flushMaxMode {
 			_ = s.Database().TrieDB().Commit(r, false)
 		}
 		return e.class(r)
+	case "setcredits":
+		a, ok1 := needA()
+		nv, ok2 := hx.Arg(toks, "n")
+		n, err := strconv.ParseUint(nv, 10, 64)
+		if !ok1 || !ok2 || err != nil {
+			return bad
+		}
+		s.SetCredits(a, n)
+		return "ok"
+	case "addpreimage":
+		p, ok1 := argInt(toks, "p", 0, nPre-1)
+		d, ok2 := argHex(toks, "d")
+		if !ok1 || !ok2 {
+			return bad
+		}
+		s.AddPreimage(uPre[p], d)
+		return "ok"
+	case "reset":
+		tv, ok1 := hx.Arg(toks, "to")
+		if !ok1 {
+			return bad
+		}
+		var root common.Hash
+		switch tv {
+		case "-":
+			root = common.EmptyHash
+		case "bad":
+			root = uBad
+		default:
+			j, err := strconv.Atoi(tv)
+			if err != nil || j < 0 || j >= len(e.commits) {
+				return bad
+			}
+			root = e.commits[j]
+		}
+		if err := s.Reset(root); err != nil {
+			return "err"
+		}
+		return "ok"
+	case "reopen", "rollback":
+		res := "ok"
+		if name == "rollback" {
+			rolled := false
+			if state.CanRollBackOneBlock(info.raw, info.height) {
+				info.height--
+				rolled = true
+			}
+			res = fmt.Sprintf("rolled=%v", rolled)
+		}
+		ns, err := e.openState(info)
+		if err != nil {
+			return "err"
+		}
+		e.h[hid] = ns
+		if name == "rollback" {
+			switch want, known := info.digestAt[info.height]; {
+			case e.mode != 3:
+				res += " db=na"
+			case known && want == dbDigest(info.raw):
+				res += " db=same"
+			default:
+				res += " db=diff"
+			}
+		}
+		return res
 	}
 	return bad
 }
 
 // ---- dump ----------------------------------------------------------------------------------
 
-func (e *exec) dumpAll() string {
+// dumpAll dumps every live handle.  The extra getter sanity check of a NON-existing account (which costs ~30
+// trie lookups and never changes the output unless it fails) is made on the handles the op acted on (h=, to=),
+// and there for the op's own address (a=) or, for ops without an address that can change accounts
+// (revert, root, commit, reset, reopen, rollback, copy, new), for all addresses.
+func (e *exec) dumpAll(toks []string) string {
+	acting := map[int]bool{}
+	addr := -1
+	if toks == nil {
+		for id := range e.h {
+			acting[id] = true
+		}
+	} else {
+		if h, ok := argInt(toks, "h", 0, maxInt); ok {
+			acting[h] = true
+		}
+		if toks[0] == "copy" {
+			if t, ok := argInt(toks, "to", 0, maxInt); ok {
+				acting[t] = true
+			}
+		}
+		if a, ok := argInt(toks, "a", 0, nAddr-1); ok {
+			addr = a
+		} else {
+			switch toks[0] {
+			case "snap", "addlog", "addrefund", "subrefund", "prepare", "addpreimage":
+				addr = nAddr // ops that do not touch accounts: no full check at all
+			}
+		}
+	}
 	ids := make([]int, 0, len(e.h))
 	for id := range e.h {
 		ids = append(ids, id)
@@ -391,12 +655,12 @@ func (e *exec) dumpAll() string {
 	sort.Ints(ids)
 	parts := make([]string, len(ids))
 	for i, id := range ids {
-		parts[i] = dumpState(id, e.h[id])
+		parts[i] = dumpState(id, e.h[id], acting[id], addr)
 	}
 	return strings.Join(parts, " ")
 }
 
-func dumpState(id int, s *state.StateDB) string {
+func dumpState(id int, s *state.StateDB, acting bool, addr int) string {
 	var b strings.Builder
 	fmt.Fprintf(&b, "h%d[r=%d;L=", id, s.GetRefund())
 	for x := 0; x < nTx; x++ {
@@ -414,12 +678,29 @@ func dumpState(id int, s *state.StateDB) string {
 			fmt.Fprintf(&b, "%d.%d.%d", d, l.Index, l.TxIndex)
 		}
 	}
+	fmt.Fprintf(&b, ";n=%d;P=", len(s.Logs()))
+	pre := s.Preimages()
+	known := 0
+	for p := 0; p < nPre; p++ {
+		if p > 0 {
+			b.WriteByte('|')
+		}
+		if v, ok := pre[uPre[p]]; ok {
+			known++
+			b.WriteString(hx.Hex(v))
+		} else {
+			b.WriteByte('.')
+		}
+	}
+	if len(pre) != known {
+		b.WriteByte('!')
+	}
 	b.WriteByte(';')
 	for a := 0; a < nAddr; a++ {
 		if a > 0 {
 			b.WriteByte('/')
 		}
-		b.WriteString(dumpAcct(s, uAddr[a]))
+		b.WriteString(dumpAcct(s, uAddr[a], acting && (addr < 0 || addr == a)))
 	}
 	b.WriteByte(']')
 	return b.String()
@@ -434,8 +715,11 @@ func tokIdx(t common.Address) int {
 	return -1
 }
 
-func dumpAcct(s *state.StateDB, a common.Address) string {
+func dumpAcct(s *state.StateDB, a common.Address, fullCheck bool) string {
 	if !s.Exist(a) {
+		if !fullCheck {
+			return "-"
+		}
 		ok := s.GetBalance(a).Sign() == 0
 		for t := 0; t < nTok; t++ {
 			ok = ok && s.GetTokenBalance(a, uTok[t]).Sign() == 0
@@ -445,6 +729,10 @@ func dumpAcct(s *state.StateDB, a common.Address) string {
 		for k := 0; k < nKey; k++ {
 			ok = ok && len(s.GetState(a, uKey[k])) == 0
 		}
+		for k := 0; k < nKey; k++ {
+			ok = ok && len(s.GetCommittedState(a, uKey[k])) == 0
+		}
+		ok = ok && !s.IsContract(a) && len(s.GetContractCode(a[:])) == 0 && s.GetAccount(a) == nil
 		if !ok {
 			return "-!"
 		}
@@ -502,8 +790,21 @@ func dumpAcct(s *state.StateDB, a common.Address) string {
 	if f == "" {
 		f = "-"
 	}
-	return fmt.Sprintf("%d,%d,%s,%s,%s,%s,%s,%d,%s,%s", s.GetNonce(a), s.GetCredits(a), balS, strings.Join(tb, ":"), TB,
-		hx.Hex(code), ch, size, strings.Join(st, ":"), f)
+	nonce, credits := s.GetNonce(a), s.GetCredits(a)
+	cst := make([]string, nKey)
+	for k := 0; k < nKey; k++ {
+		cst[k] = hx.Hex(s.GetCommittedState(a, uKey[k]))
+	}
+	x := "-"
+	if s.IsContract(a) {
+		x = "I"
+	}
+	cc := s.GetContractCode(a[:])
+	if !bytes.Equal(cc, code) || s.GetAccount(a) == nil {
+		x += "!"
+	}
+	return fmt.Sprintf("%d,%d,%s,%s,%s,%s,%s,%d,%s,%s,%s,%s", nonce, credits, balS, strings.Join(tb, ":"), TB,
+		hx.Hex(code), ch, size, strings.Join(st, ":"), f, strings.Join(cst, ":"), x)
 }
 
 // ---- monitors ------------------------------------------------------------------------------
@@ -533,7 +834,7 @@ func splitAnswer(ans string) (res string, dumps map[int]string, ok bool) {
 	return res, dumps, true
 }
 
-var acctFieldNames = []string{"nonce", "credits", "bal", "tb", "TB", "code", "CH", "size", "st", "F"}
+var acctFieldNames = []string{"nonce", "credits", "bal", "tb", "TB", "code", "CH", "size", "st", "F", "cst", "X"}
 
 // diffDump lists the differing fields of two handle dump bodies ("[r=..;L=..;a0/../a5]") as
 // "name: old -> new" strings; the name of an account field is "a<i>.<field>".
@@ -547,19 +848,18 @@ func diffDump(x, y string) (names []string, msgs []string) {
 	}
 	px := strings.Split(strings.Trim(x, "[]"), ";")
 	py := strings.Split(strings.Trim(y, "[]"), ";")
-	if len(px) != 3 || len(py) != 3 {
+	if len(px) != 5 || len(py) != 5 {
 		add("dump", x, y)
 		return
 	}
-	if px[0] != py[0] {
-		add("r", px[0], py[0])
+	for k, n := range []string{"r", "L", "n", "P"} {
+		if px[k] != py[k] {
+			add(n, px[k], py[k])
+		}
 	}
-	if px[1] != py[1] {
-		add("L", px[1], py[1])
-	}
-	ax, ay := strings.Split(px[2], "/"), strings.Split(py[2], "/")
+	ax, ay := strings.Split(px[4], "/"), strings.Split(py[4], "/")
 	if len(ax) != len(ay) {
-		add("accts", px[2], py[2])
+		add("accts", px[4], py[4])
 		return
 	}
 	for i := range ax {
@@ -613,20 +913,55 @@ func resetObjectOnly(names []string, h int, created map[snapKey]bool) bool {
 	return found
 }
 
+const cleanHeader = "r=0;L=||;n=0;P=.|.|."
+
+// splitDump splits a handle dump body "[r=..;L=..;n=..;P=..;a0/../a5]" into the header part and the account part.
+func splitDump(d string) (header, accts string, ok bool) {
+	d = strings.TrimSuffix(strings.TrimPrefix(d, "["), "]")
+	i := strings.LastIndex(d, ";")
+	if i < 0 {
+		return "", "", false
+	}
+	return d[:i], d[i+1:], true
+}
+
+// diffAccts diffs two account parts with diffDump's field names.
+func diffAccts(x, y string) (names []string, msgs []string) {
+	return diffDump("["+cleanHeader+";"+x+"]", "["+cleanHeader+";"+y+"]")
+}
+
+// allCreated: every differing field belongs to an account that had an earlier successful `create` on handle h.
+func allCreated(names []string, h int, created map[snapKey]bool) bool {
+	for _, n := range names {
+		if len(n) < 2 || n[0] != 'a' || n[1] < '0' || n[1] > '9' || !created[snapKey{h, int(n[1] - '0')}] {
+			return false
+		}
+	}
+	return len(names) > 0
+}
+
 func (P) Monitor(c *hx.CaseRun) []hx.Failure {
 	var fs []hx.Failure
 	seen := map[string]bool{} // at most one failure per (monitor, class) per case
-	fail := func(mon, class, msg string) {
+	failAt := func(mon, class, at, msg string) {
 		if seen[mon+"/"+class] {
 			return
 		}
 		seen[mon+"/"+class] = true
-		fs = append(fs, hx.Failure{Monitor: mon, Class: class, Site: site, Msg: msg})
+		fs = append(fs, hx.Failure{Monitor: mon, Class: class, Site: at, Msg: msg})
 	}
+	fail := func(mon, class, msg string) { failAt(mon, class, site, msg) }
 	mode := -1
 	snaps := map[snapKey]string{}
 	copied := map[int]bool{}      // handles that were the source or the target of an earlier successful copy
 	created := map[snapKey]bool{} // (handle, address) of earlier successful `create` ops
+	// M8: snapshot ids issued before / since the latest successful reset/reopen/rollback of a handle
+	issuedBefore, issuedSince := map[snapKey]bool{}, map[snapKey]bool{}
+	// M6/M7 (tag blocks, handle 0)
+	noAccts := strings.TrimSuffix(strings.Repeat("-/", nAddr), "/")
+	committed := map[int]string{0: noAccts}
+	height, nCommits := 0, 0
+	lastCommitAt, lastCommitAccts := -1, "" // op index / account part of the latest successful commit of handle 0
 	var prev map[int]string
 	for i, op := range c.Ops {
 		if i >= len(c.Impl) {
@@ -639,10 +974,14 @@ func (P) Monitor(c *hx.CaseRun) []hx.Failure {
 		}
 		name := toks[0]
 		if name == "case" {
-			mode, _ = argInt(toks, "mode", 0, 2)
+			mode, _ = argInt(toks, "mode", 0, 3)
 			snaps = map[snapKey]string{}
 			copied = map[int]bool{}
 			created = map[snapKey]bool{}
+			issuedBefore, issuedSince = map[snapKey]bool{}, map[snapKey]bool{}
+			committed = map[int]string{0: noAccts}
+			height, nCommits = 0, 0
+			lastCommitAt, lastCommitAccts = -1, ""
 			prev = nil
 			if _, d, ok := splitAnswer(ans); ok {
 				prev = d
@@ -713,6 +1052,116 @@ func (P) Monitor(c *hx.CaseRun) []hx.Failure {
 				created[snapKey{h, a}] = true
 			}
 		}
+		// M10
+		if name != "reset" && name != "reopen" && name != "rollback" && prev != nil {
+			if pd, was := prev[h]; was {
+				_, pa, ok1 := splitDump(pd)
+				_, ca, ok2 := splitDump(cur[h])
+				pas, cas := strings.Split(pa, "/"), strings.Split(ca, "/")
+				if ok1 && ok2 && len(pas) == nAddr && len(cas) == nAddr {
+					opA, hasA := argInt(toks, "a", 0, nAddr-1)
+					for a := 0; a < nAddr; a++ {
+						f := strings.Split(cas[a], ",")
+						if len(f) != len(acctFieldNames) {
+							continue
+						}
+						appeared := strings.HasPrefix(pas[a], "-")
+						if !appeared && !(name == "create" && res == "ok" && hasA && opA == a) {
+							continue
+						}
+						st, cst := strings.Split(f[8], ":"), strings.Split(f[10], ":")
+						if name == "setstate" && hasA && opA == a {
+							if k, ok := argInt(toks, "k", 0, nKey-1); ok && k < len(st) {
+								st[k] = "-" // the op's own write
+							}
+						}
+						if strings.Trim(strings.Join(st, ""), "-") != "" || strings.Trim(strings.Join(cst, ""), "-") != "" {
+							failAt("fresh_account_clean", "kv-storage-ghost", "state/keyvalue.go:TryGet", fmt.Sprintf("op %d %q: account %d of handle %d is new but has storage st=%s cst=%s", i, op, a, h, f[8], f[10]))
+						}
+					}
+				}
+			}
+		}
+		// a successful reset / reopen / rollback gives H a fresh journal (and, except reset, a new StateDB)
+		fresh := (name == "reset" && res == "ok") || (name == "reopen" && res == "ok") || (name == "rollback" && strings.HasPrefix(res, "rolled="))
+		// M8
+		switch {
+		case fresh:
+			for k := range issuedSince {
+				if k.h == h {
+					issuedBefore[k] = true
+					delete(issuedSince, k)
+				}
+			}
+		case name == "new" || name == "copy":
+			n := h
+			if name == "copy" {
+				n = to
+			}
+			for k := range issuedSince {
+				if k.h == n {
+					delete(issuedSince, k)
+				}
+			}
+			for k := range issuedBefore {
+				if k.h == n {
+					delete(issuedBefore, k)
+				}
+			}
+		case name == "snap" && strings.HasPrefix(res, "id="):
+			if id, err := strconv.Atoi(res[3:]); err == nil {
+				issuedSince[snapKey{h, id}] = true
+			}
+		case name == "revert" && res == "ok":
+			if id, ok := argInt(toks, "id", -maxInt, maxInt); ok && issuedBefore[snapKey{h, id}] && !issuedSince[snapKey{h, id}] {
+				fail("reset_invalidates", "revert-across-reset", fmt.Sprintf("op %d %q: snapshot id %d was issued before the latest reset/reopen/rollback of handle %d but the revert was accepted", i, op, id, h))
+			}
+		}
+		// M6 / M7
+		if c.Tags["blocks"] && h == 0 {
+			hdr, accts, okD := splitDump(cur[0])
+			switch {
+			case name == "commit" && strings.HasPrefix(res, "class="):
+				height++
+				nCommits++
+				lastCommitAt, lastCommitAccts = i, accts
+				delete(committed, height)
+			case okD && fresh && name != "rollback":
+				direct := lastCommitAt == i-1
+				if name == "reset" {
+					tv, _ := hx.Arg(toks, "to")
+					direct = direct && tv == strconv.Itoa(nCommits-1)
+				}
+				if direct {
+					committed[height] = accts
+					if accts != lastCommitAccts {
+						names, msgs := diffAccts(lastCommitAccts, accts)
+						class := "commit-not-faithful"
+						if allCreated(names, 0, created) {
+							class = "copy-misses-reset-object"
+						}
+						fail("commit_faithful", class, fmt.Sprintf("op %d %q: state read back after the commit differs from the live state right after Commit: %s", i, op, strings.Join(msgs, "; ")))
+					}
+				}
+				if hdr != cleanHeader {
+					fail("commit_faithful", "reset-not-clean", fmt.Sprintf("op %d %q: header after reset/reopen is %s", i, op, hdr))
+				}
+			case okD && fresh && name == "rollback":
+				if strings.HasPrefix(res, "rolled=true") {
+					height--
+				}
+				if strings.HasSuffix(res, "db=diff") {
+					fail("rollback_exact", "rollback-db-not-exact", fmt.Sprintf("op %d %q (%s, height now %d): the underlying db differs byte-wise from the db right after the commit of that height", i, op, res, height))
+				}
+				if want, known := committed[height]; known && want != accts {
+					_, msgs := diffAccts(want, accts)
+					fail("rollback_exact", "rollback-not-exact", fmt.Sprintf("op %d %q (%s, height now %d): state differs from the state committed at that height: %s", i, op, res, height, strings.Join(msgs, "; ")))
+				}
+				if hdr != cleanHeader {
+					fail("rollback_exact", "reset-not-clean", fmt.Sprintf("op %d %q: header after rollback is %s", i, op, hdr))
+				}
+			}
+		}
 		// M1
 		switch name {
 		case "new":
@@ -727,10 +1176,12 @@ func (P) Monitor(c *hx.CaseRun) []hx.Failure {
 					delete(snaps, k)
 				}
 			}
-		case "root", "commit":
-			for k := range snaps {
-				if k.h == h {
-					delete(snaps, k)
+		case "root", "commit", "reset", "reopen", "rollback":
+			if name == "root" || name == "commit" || fresh {
+				for k := range snaps {
+					if k.h == h {
+						delete(snaps, k)
+					}
 				}
 			}
 		case "snap":
@@ -834,6 +1285,13 @@ type caseGen struct {
 
 	copied  bool
 	nontriv bool
+	stale   bool // a deliberately stale revert was emitted (expected panic): the case carries tag malformed
+
+	dbOf    map[int]int // database group of a handle (copies share it)
+	commits []int       // database group of every commit op emitted so far (index = `reset to=` index)
+	height  int         // blocks: the generator's idea of the block-store height
+	kvh     int         // blocks, mode 3: height stored by the last commit (CanRollBackOneBlock needs kvh == height)
+	carry   []int       // blocks: addresses suicided in the running block (re-created in the next one)
 
 	// twin bookkeeping: effective ops of handle 0 and the positions of the open snapshots in it
 	eff   []string
@@ -873,6 +1331,25 @@ func (c *caseGen) setAmount() string {
 }
 
 func (c *caseGen) addr() int { return c.addrs[c.rn(len(c.addrs))] }
+
+func (c *caseGen) restricted() bool { return c.mode == 3 && !kvGhostStorage }
+
+// addrFor picks the address of a setstate / suicide / create op; -1 if the case's restriction leaves none.
+func (c *caseGen) addrFor(name string) int {
+	if !c.restricted() {
+		return c.addr()
+	}
+	var cand []int
+	for _, a := range c.addrs {
+		if (name == "setstate") == (a <= 2) {
+			cand = append(cand, a)
+		}
+	}
+	if len(cand) == 0 {
+		return -1
+	}
+	return cand[c.rn(len(cand))]
+}
 
 func (c *caseGen) tok() int {
 	if c.rn(10) == 0 {
@@ -925,10 +1402,10 @@ type wop struct {
 }
 
 var mixValid = []wop{{"addbal", 10}, {"subbal", 5}, {"setbal", 4}, {"addtok", 14}, {"subtok", 6}, {"settok", 6}, {"setnonce", 6}, {"setcode", 5},
-	{"setstate", 10}, {"create", 4}, {"suicide", 4}, {"addlog", 4}, {"addrefund", 3}, {"prepare", 2}, {"snap", 10}, {"revert", 6}}
+	{"setstate", 10}, {"create", 4}, {"suicide", 4}, {"addlog", 4}, {"addrefund", 3}, {"prepare", 2}, {"setcredits", 3}, {"addpreimage", 3}, {"snap", 10}, {"revert", 6}}
 
 var mixNeg = []wop{{"addbal", 10}, {"subbal", 5}, {"setbal", 6}, {"addtok", 14}, {"subtok", 6}, {"settok", 8}, {"setnonce", 6}, {"setcode", 5},
-	{"setstate", 10}, {"create", 4}, {"subbalx", 5}, {"subtokx", 6}, {"addlog", 4}, {"addrefund", 3}, {"prepare", 2}, {"snap", 10}, {"revert", 6}}
+	{"setstate", 10}, {"create", 4}, {"subbalx", 5}, {"subtokx", 6}, {"addlog", 4}, {"addrefund", 3}, {"prepare", 2}, {"setcredits", 3}, {"addpreimage", 3}, {"snap", 10}, {"revert", 6}}
 
 func (c *caseGen) pickOp(noSnap bool) string {
 	mix := mixValid
@@ -958,6 +1435,12 @@ var svals = []string{"-", "01", "02ff", "abcdef"}
 
 // mutator emits one mutating op (never snap/revert/root/commit/copy) called `name` on handle h.
 func (c *caseGen) mutator(h int, name string) {
+	fa := -1
+	if name == "setstate" || name == "suicide" || name == "create" {
+		if fa = c.addrFor(name); fa < 0 {
+			name = "addbal"
+		}
+	}
 	switch name {
 	case "addbal", "subbal", "subbalx":
 		a := c.addr()
@@ -988,15 +1471,18 @@ func (c *caseGen) mutator(h int, name string) {
 		c.emitH(h, fmt.Sprintf("setcode h=%d a=%d code=%s", h, a, codes[c.rn(len(codes))]))
 		c.exists[a] = true
 	case "setstate":
-		a := c.addr()
+		a := fa
 		c.emitH(h, fmt.Sprintf("setstate h=%d a=%d k=%d v=%s", h, a, c.rn(nKey), svals[c.rn(len(svals))]))
 		c.exists[a] = true
 	case "create":
-		a := c.addr()
+		a := fa
 		c.emitH(h, fmt.Sprintf("create h=%d a=%d", h, a))
 		c.exists[a] = true
 	case "suicide":
-		c.emitH(h, fmt.Sprintf("suicide h=%d a=%d", h, c.addr()))
+		c.emitH(h, fmt.Sprintf("suicide h=%d a=%d", h, fa))
+		if c.kind == "blocks" {
+			c.carry = append(c.carry, fa)
+		}
 	case "addlog":
 		c.emitH(h, fmt.Sprintf("addlog h=%d d=%d", h, c.rn(256)))
 	case "addrefund":
@@ -1007,6 +1493,12 @@ func (c *caseGen) mutator(h int, name string) {
 		}
 	case "prepare":
 		c.emitH(h, fmt.Sprintf("prepare h=%d x=%d i=%d", h, c.rn(nTx), c.rn(4)))
+	case "setcredits":
+		a := c.addr()
+		c.emitH(h, fmt.Sprintf("setcredits h=%d a=%d n=%d", h, a, c.rn(6)))
+		c.exists[a] = true
+	case "addpreimage":
+		c.emitH(h, fmt.Sprintf("addpreimage h=%d p=%d d=%s", h, c.rn(nPre), []string{"-", "01", "abcd"}[c.rn(3)]))
 	default:
 		panic("harness: unknown mutator " + name)
 	}
@@ -1049,11 +1541,51 @@ func (c *caseGen) revertAt(h, j int) {
 
 func (c *caseGen) rootOrCommit(h int, name string) {
 	c.emitH(h, fmt.Sprintf("%s h=%d del=%d", name, h, c.del))
+	if name == "commit" {
+		c.commits = append(c.commits, c.dbOf[h])
+	}
+	c.journalCleared(h)
+}
+
+// journalCleared: root/commit/reset/reopen/rollback invalidate every open snapshot id of the handle.
+func (c *caseGen) journalCleared(h int) {
 	c.dead[h] = append(c.dead[h], c.open[h]...)
 	c.open[h], c.openMut[h] = nil, nil
 	c.hot[h] = nil
 	if c.kind == "twin" && h == 0 {
 		c.marks = nil
+	}
+}
+
+// staleRevert: occasionally, directly after a reset/reopen/rollback, revert to an id issued before it (must panic).
+func (c *caseGen) staleRevert(h, pct int) {
+	if c.nextID[h] > 0 && c.rn(100) < pct {
+		c.emit(fmt.Sprintf("revert h=%d id=%d", h, c.rn(c.nextID[h])))
+		c.stale = true
+		c.g.Count("stale-revert")
+	}
+}
+
+// reset emits `reset h to=<earlier commit of the same database | - | bad>`.
+func (c *caseGen) reset(h int) {
+	var cand []int
+	for j, grp := range c.commits {
+		if grp == c.dbOf[h] {
+			cand = append(cand, j)
+		}
+	}
+	to := "-"
+	switch r := c.rn(100); {
+	case r < 5:
+		to = "bad"
+	case r < 75 && len(cand) > 0:
+		to = strconv.Itoa(cand[c.rn(len(cand))])
+	}
+	c.emitH(h, fmt.Sprintf("reset h=%d to=%s", h, to))
+	c.journalCleared(h)
+	c.mutated(h)
+	if to != "bad" {
+		c.staleRevert(h, 10)
 	}
 }
 
@@ -1067,6 +1599,7 @@ func (c *caseGen) copyTo(h int) {
 	c.hot[n] = append([]pair{}, c.hot[h]...)
 	c.mut[n] = 0
 	c.nextID[n] = 0
+	c.dbOf[n] = c.dbOf[h]
 	c.copied = true
 }
 
@@ -1075,6 +1608,7 @@ func (c *caseGen) newHandle() {
 	c.nextH++
 	c.emit(fmt.Sprintf("new h=%d", n))
 	c.live = append(c.live, n)
+	c.dbOf[n] = n
 }
 
 func (c *caseGen) rootsAllowed() bool { return c.mode != 2 && !c.neg }
@@ -1090,6 +1624,10 @@ func (c *caseGen) step(h int) {
 			c.rootOrCommit(h, "commit")
 			return
 		}
+	}
+	if c.mode <= 1 && c.rn(100) < 2 {
+		c.reset(h)
+		return
 	}
 	name := c.pickOp(false)
 	switch name {
@@ -1174,6 +1712,102 @@ func (c *caseGen) badOp(h int) {
 	c.g.Count("bad-op-injected")
 }
 
+// freshState: reopen/rollback replace the handle by a new StateDB (snapshot ids start at 0 again).
+func (c *caseGen) freshState(h int) {
+	c.journalCleared(h)
+	c.dead[h] = nil
+	prev := c.nextID[h]
+	if prev > 0 && c.rn(100) < 6 {
+		c.emit(fmt.Sprintf("revert h=%d id=%d", h, c.rn(prev)))
+		c.stale = true
+		c.g.Count("stale-revert")
+	}
+	c.nextID[h] = 0
+}
+
+func (c *caseGen) rollback(h int) {
+	c.emit(fmt.Sprintf("rollback h=%d", h))
+	if c.height > 0 && (c.mode != 3 || c.kvh == c.height) {
+		c.height--
+		if c.mut[h] > 0 {
+			c.nontriv = true
+		}
+		c.g.Count("blocks:rollback-expected-true")
+	} else {
+		c.g.Count("blocks:rollback-expected-false")
+	}
+	c.freshState(h)
+}
+
+// blockStep: one op inside a block (mutators, nested snap/revert; never root/commit/reset).
+func (c *caseGen) blockStep(h int) {
+	if len(c.carry) > 0 && c.rn(100) < 30 {
+		// re-create an account that was suicided before the last commit
+		a := c.carry[0]
+		c.carry = c.carry[1:]
+		re := []string{fmt.Sprintf("addbal h=%d a=%d v=%s", h, a, c.posAmount()), fmt.Sprintf("create h=%d a=%d", h, a),
+			fmt.Sprintf("setstate h=%d a=%d k=%d v=%s", h, a, c.rn(nKey), svals[1+c.rn(3)])}
+		if c.restricted() {
+			re = re[:2] // a suicided address is not a storage address
+		}
+		c.emit(re[c.rn(len(re))])
+		c.exists[a] = true
+		c.mutated(h)
+		return
+	}
+	name := c.pickOp(false)
+	switch name {
+	case "snap":
+		c.snap(h)
+	case "revert":
+		if len(c.open[h]) == 0 {
+			c.mutator(h, c.pickOp(true))
+			return
+		}
+		c.revertAt(h, c.rn(len(c.open[h])))
+	default:
+		c.mutator(h, name)
+	}
+}
+
+func (c *caseGen) genBlocks() {
+	nBlocks := 2 + c.rn(4)
+	if c.rn(100) < 8 {
+		c.rollback(0) // a rollback before any commit (height 0)
+	}
+	extra := 0
+	for b := 0; b < nBlocks; b++ {
+		for k := 3 + c.rn(10); k > 0; k-- {
+			c.blockStep(0)
+		}
+		if c.rn(100) < 30 {
+			c.rootOrCommit(0, "root")
+		}
+		c.rootOrCommit(0, "commit")
+		c.height++
+		c.kvh = c.height
+		if c.rn(2) == 0 {
+			c.emit("reopen h=0")
+			c.freshState(0)
+		} else {
+			c.emit(fmt.Sprintf("reset h=0 to=%d", len(c.commits)-1))
+			c.journalCleared(0)
+			c.staleRevert(0, 6)
+		}
+		if c.rn(2) == 0 {
+			c.rollback(0)
+			if c.rn(100) < 25 {
+				c.rollback(0)
+			}
+			if b == nBlocks-1 && extra < 2 && c.rn(2) == 0 {
+				nBlocks++ // continue with a further block after the rollback
+				extra++
+			}
+		}
+	}
+	c.g.Count(fmt.Sprintf("blocks:n=%d", nBlocks))
+}
+
 func (P) Generate(g *hx.Gen) {
 	n := g.Pick(2500, 40000)
 	for k := 0; k < n; k++ {
@@ -1183,28 +1817,38 @@ func (P) Generate(g *hx.Gen) {
 
 func genCase(g *hx.Gen) {
 	c := &caseGen{g: g, open: map[int][]int{}, openMut: map[int][]int{}, nextID: map[int]int{}, dead: map[int][]int{}, mut: map[int]int{},
-		hot: map[int][]pair{}, shared: map[int][]pair{}, touched: map[pair]bool{}, exists: map[int]bool{}, live: []int{0}, nextH: 1}
-	switch r := c.rn(100); {
-	case r < 50:
+		hot: map[int][]pair{}, shared: map[int][]pair{}, touched: map[pair]bool{}, exists: map[int]bool{}, live: []int{0}, nextH: 1, dbOf: map[int]int{0: 0}}
+	// modes 0:40% 1:20% 2:15% among the kinds that allow them; mode 3 only in `blocks`
+	switch r := c.rn(75); {
+	case r < 40:
 		c.mode = 0
-	case r < 75:
+	case r < 60:
 		c.mode = 1
 	default:
 		c.mode = 2
 	}
-	switch r := c.rn(100); {
-	case r < 35:
-		c.kind = "journal"
-	case r < 70:
-		c.kind = "copies"
-	case r < 90:
-		c.kind = "twin"
-		c.mode = 0
-	default:
-		c.kind = "malformed"
-		c.neg = c.rn(2) == 0
+	if c.rn(100) < 25 {
+		c.kind = "blocks"
+		c.mode = 1 + 2*c.rn(2)
+	} else {
+		switch r := c.rn(100); {
+		case r < 35:
+			c.kind = "journal"
+		case r < 70:
+			c.kind = "copies"
+		case r < 90:
+			c.kind = "twin"
+			c.mode = 0
+		default:
+			c.kind = "malformed"
+			c.neg = c.rn(2) == 0
+		}
 	}
-	c.addrs = g.Rng.Perm(nAddr)[:2+c.rn(5)]
+	nA := 2 + c.rn(5)
+	if c.kind == "blocks" {
+		nA = 2 + c.rn(3) // few addresses: the blocks keep hitting the same accounts / tokens / storage keys
+	}
+	c.addrs = g.Rng.Perm(nAddr)[:nA]
 	sort.Ints(c.addrs)
 	tp := g.Rng.Perm(3)[:1+c.rn(3)]
 	for _, t := range tp {
@@ -1215,11 +1859,10 @@ func genCase(g *hx.Gen) {
 	if c.rn(100) >= 70 {
 		c.del = 1
 	}
-	tags := []string{c.kind}
-	if c.neg {
-		tags = append(tags, "neg")
+	if c.restricted() {
+		c.del = 0
 	}
-	c.ops = append(c.ops, fmt.Sprintf("%s mode=%d", hx.CaseOp(tags...), c.mode))
+	c.ops = append(c.ops, "") // the case op is written last (a stale revert adds tag malformed)
 	g.Count(fmt.Sprintf("mode:%d", c.mode))
 	g.Count("kind:" + c.kind)
 	g.Count(fmt.Sprintf("del:%d", c.del))
@@ -1281,8 +1924,16 @@ func genCase(g *hx.Gen) {
 			g.Count("twin:zero-entry-pattern")
 		}
 		c.emit("new h=9")
+		nC := len(c.commits) // all by handle 0; its k-th commit corresponds to commit nC+k of handle 9
 		for _, op := range c.eff {
-			c.emit(strings.Replace(op, " h=0", " h=9", 1))
+			op = strings.Replace(op, " h=0", " h=9", 1)
+			if opName(op) == "reset" {
+				if tv, _ := hx.Arg(hx.Tokens(op), "to"); tv != "-" && tv != "bad" {
+					j, _ := strconv.Atoi(tv)
+					op = fmt.Sprintf("reset h=9 to=%d", j+nC)
+				}
+			}
+			c.emit(op)
 		}
 		d := c.rn(2)
 		c.emit(fmt.Sprintf("root h=0 del=%d", d))
@@ -1300,7 +1951,17 @@ func genCase(g *hx.Gen) {
 			}
 			c.step(h)
 		}
+	case "blocks":
+		c.genBlocks()
 	}
+	tags := []string{c.kind}
+	if c.neg {
+		tags = append(tags, "neg")
+	}
+	if c.stale && c.kind != "malformed" {
+		tags = append(tags, "malformed")
+	}
+	c.ops[0] = fmt.Sprintf("%s mode=%d", hx.CaseOp(tags...), c.mode)
 	if c.nontriv {
 		g.Count("nontrivial")
 	}
